@@ -16,10 +16,10 @@ d = tempfile.mkdtemp(prefix="fix.")
 try:
     sh(f"git -C /repo archive HEAD | tar xf - -C {d}")
     shutil.copy(TEST, os.path.join(d, "zz_fix_test.go"))
-    before = sh("go test -vet=off -count=1 -run 'TestHunt|TestDefect' .", cwd=d)
+    before = sh("go test -vet=off -count=1 -run 'TestHunt|TestDefect|TestAudit' .", cwd=d)
     open(os.path.join(d, "fix.diff"), "w").write(diff)
     a = sh("patch -p1 -s < fix.diff", cwd=d); assert a.returncode == 0, a.stderr
-    after = sh("go test -vet=off -count=1 -run 'TestHunt|TestDefect' .", cwd=d)
+    after = sh("go test -vet=off -count=1 -run 'TestHunt|TestDefect|TestAudit' .", cwd=d)
     os.remove(os.path.join(d, "zz_fix_test.go"))
     suite = sh("go test -vet=off -count=1 ./... 2>&1 | grep -E '^--- FAIL' | grep -v TestProvideLocation", cwd=d)
 finally:
